@@ -4,7 +4,7 @@
    singles out are modelled concretely ([utf8_decode], [w1252_decode]) and compared with
    encoding_rs byte for byte by the correspondence run. *)
 From Coq Require Import String.
-From Http Require Import Model.Bytes Model.Utf8 Model.Headers Model.Coding Proofs.TextDecode.
+From Http Require Import Model.Bytes Model.Utf8 Model.Headers Model.Coding Proofs.TextDecode Proofs.LabelNorm.
 
 Theorem C16_text_only_for_text_types :
   forall (enc : Type) (for_label : bytes -> option enc) (enc_decode : enc -> bytes -> option (list N))
@@ -63,4 +63,23 @@ Example C16_examples :
   /\ utf8_decode [239; 187; 191; 97]%N = Some [65279; 97]%N
   /\ utf8_decode [192; 128]%N = None /\ utf8_decode [237; 160; 128]%N = None
   /\ w1252_decode [128; 65; 233]%N = [8364; 65; 233]%N.
+Proof. vm_compute. repeat split. Qed.
+
+(* ---- the charset label: case and surrounding whitespace do not matter, whatever the label table is
+   (for_label = normalise, then look up: Model/Coding.v; tied to encoding_rs by asking the real table with
+   the normalised label on every text case of the run) ---- *)
+Theorem C16_label_matched_case_insensitively :
+  forall l l', lower l = lower l' -> label_norm l = label_norm l'.
+Proof. exact label_norm_ci. Qed.
+Print Assumptions C16_label_matched_case_insensitively.
+
+Theorem C16_label_normalisation_idempotent :
+  forall l, label_norm (label_norm l) = label_norm l.
+Proof. exact label_norm_idem. Qed.
+Print Assumptions C16_label_normalisation_idempotent.
+
+Example C16_label_examples :
+  label_norm (str " UTF-8"%string ++ [9%N; 13%N]) = str "utf-8"%string
+  /\ label_norm (str "Latin1"%string) = str "latin1"%string
+  /\ label_norm (str "utf 8"%string) = str "utf 8"%string.
 Proof. vm_compute. repeat split. Qed.
